@@ -179,8 +179,9 @@ def effective(decls):
 
 
 class NsWalk:
-    def __init__(self, ctx, c):
+    def __init__(self, ctx, c, raising=True):
         self.ctx, self.c = ctx, c
+        self.raising = raising  # False: refusals are logged and silent; the state oracles apply all the same
         self.ops = []
         self.feats = set()
         self.tolerated = set()
@@ -189,7 +190,7 @@ class NsWalk:
     def start(self, seed):
         core.canonical_state(self.c)
         self.sheet = self.c.parseString(seed)
-        self.case = {'kind': 'nswalk', 'seed': seed, 'ops': self.ops}
+        self.case = {'kind': 'nswalk', 'seed': seed, 'ops': self.ops, 'raising': self.raising}
         self.shadow = {}  # id(rule) -> (rule, pairs)
         self.note_rules()
 
@@ -209,7 +210,7 @@ class NsWalk:
         c, sheet = self.c, self.sheet
         css = c.css
         k = op[0]
-        c.log.raiseExceptions = True
+        c.log.raiseExceptions = self.raising
         try:
             if k == 'ns-set':
                 sheet.namespaces[op[1]] = op[2]
@@ -336,6 +337,8 @@ class NsWalk:
         core.canonical_state(self.c)
         ctx.count('op.' + op[0])
         ctx.count('outcome.' + outcome)
+        if not self.raising:
+            ctx.count('log-mode.ops')
         if outcome == 'skipped':
             self.ops.pop()
             return True
@@ -379,9 +382,9 @@ class NsWalk:
         eff_problem = None
         if op[0] in ('ns-set', 'ns-del', 'add-ns', 'ins-ns', 'del-nsrule', 'prefix-set', 'uri-set', 'nsrule-text') and others != others_before:
             eff_problem = 'a namespace edit changed the other rules: %r -> %r' % (others_before, others)
-        elif op[0] == 'ns-set' and outcome == 'ok' and mapping.get(op[1]) != op[2]:
+        elif op[0] == 'ns-set' and outcome == 'ok' and self.raising and mapping.get(op[1]) != op[2]:
             eff_problem = 'accepted namespaces[%r] = %r but the mapping says %r' % (op[1], op[2], mapping.get(op[1]))
-        elif op[0] == 'ns-del' and outcome == 'ok' and (op[1] in mapping or op[1] not in map_before):
+        elif op[0] == 'ns-del' and outcome == 'ok' and self.raising and (op[1] in mapping or op[1] not in map_before):
             eff_problem = 'accepted del namespaces[%r]: before %r, after %r' % (op[1], map_before, mapping)
         elif outcome == 'rejected' and (mapping != map_before or decls != decl_before):
             eff_problem = 'rejected edit changed the declarations: %r -> %r' % (decl_before, decls)
@@ -566,7 +569,7 @@ def run_worker(ctx):
         if not ctx.mine(i):
             continue
         rng = ctx.rng('w', i)
-        w = NsWalk(ctx, cssutils)
+        w = NsWalk(ctx, cssutils, raising=(i % 4 != 3))
         w.start(rng.choice(SEEDS))
         ctx.count('evaluations')
         for _ in range(rng.randint(8, 40)):
@@ -589,7 +592,7 @@ def replay(ctx, case):
             if not ns.step(list(op)):
                 break
         return
-    w = NsWalk(ctx, cssutils)
+    w = NsWalk(ctx, cssutils, raising=case.get('raising', True))
     w.start(case['seed'])
     for op in case['ops']:
         if not w.step(list(op)):
